@@ -313,6 +313,71 @@ def encrypt_decrypt(w):
 
 
 @atom()
+def cipher_backend_refusals(w):
+    """Every path on which the text of a `cryptography` exception is embedded in a result message / logged with its
+    traceback (crypto/engine.py: mode construction, cipher operation, padding, KDF construction), under canaries."""
+    BM, PM, DM, HA = E.BlockCipherMode, E.PaddingMethod, E.DerivationMethod, E.HashingAlgorithm
+    uid = reg_sym(w, n=w.rng.choice([16, 24, 32]), kind='aes-backend')
+    des = reg_sym(w, n=24, alg=ALG.TRIPLE_DES, kind='3des')
+    pt = w.can.new('plaintext', 32)
+    iv = w.can.new('iv', 16)
+    aad = w.can.new('aad', 24)
+    P = lambda mode, pad=PM.PKCS5, alg=ALG.AES, **kw: cparams(block_cipher_mode=mode, padding_method=pad, cryptographic_algorithm=alg, **kw)
+    good = w.one(kdrv.encrypt(uid, P(BM.CBC), pt, iv), 'cbc ok')
+    ct = bytes.fromhex(good['payload']['data']) if good is not None and kdrv.ok(good) else pt + pt[:16]
+    # mode construction refused (encrypt / decrypt)
+    for n in (0, 1, 7, 15):
+        w.one(kdrv.encrypt(uid, P(BM.CBC), pt, iv[:n] if n else b''), 'encrypt: cbc iv of %d bytes' % n)
+        w.one(kdrv.decrypt(uid, P(BM.CBC), ct, iv[:n] if n else None), 'decrypt: cbc iv of %d bytes' % n)
+    w.one(kdrv.encrypt(uid, P(BM.CBC), pt, iv + iv), 'encrypt: cbc iv of 32 bytes')
+    w.one(kdrv.encrypt(uid, P(BM.CTR, None), pt, iv[:9]), 'encrypt: ctr nonce of 9 bytes')
+    w.one(kdrv.encrypt(uid, P(BM.CFB, None), pt, iv[:3]), 'encrypt: cfb iv of 3 bytes')
+    w.one(kdrv.encrypt(uid, P(BM.OFB, None), pt, iv[:3]), 'encrypt: ofb iv of 3 bytes')
+    w.one(kdrv.encrypt(uid, P(BM.GCM, None, tag_length=16), pt, iv[:4], aad), 'encrypt: gcm nonce of 4 bytes')
+    w.one(kdrv.encrypt(uid, P(BM.GCM, None, tag_length=2), pt, iv[:12], aad), 'encrypt: gcm tag length 2')
+    w.one(kdrv.encrypt(uid, P(BM.GCM, None, tag_length=200), pt, iv[:12], aad), 'encrypt: gcm tag length 200')
+    w.one(kdrv.encrypt(des, P(BM.CBC, alg=ALG.TRIPLE_DES), pt, iv), 'encrypt: 3des with a 16 byte iv')
+    w.one(kdrv.encrypt(des, P(BM.GCM, None, alg=ALG.TRIPLE_DES, tag_length=16), pt, iv[:12], aad), 'encrypt: 3des in gcm mode')
+    # cipher operation refused
+    w.one(kdrv.encrypt(uid, P(BM.CBC, PM.NONE), pt[:13], iv), 'encrypt: 13 bytes without padding')
+    w.one(kdrv.encrypt(uid, P(BM.ECB, PM.NONE), pt[:31]), 'encrypt: ecb 31 bytes without padding')
+    w.one(kdrv.decrypt(uid, P(BM.CBC), ct[:-3], iv), 'decrypt: truncated ciphertext')
+    w.one(kdrv.decrypt(uid, P(BM.CBC, PM.NONE), ct[:21], iv), 'decrypt: 21 bytes without padding')
+    w.one(kdrv.decrypt(uid, P(BM.ECB), pt[:17]), 'decrypt: ecb 17 bytes')
+    bad = bytearray(ct)
+    bad[-17] ^= 16
+    w.one(kdrv.decrypt(uid, P(BM.CBC), bytes(bad), iv), 'decrypt: bad pkcs5 padding (last byte 0)')
+    w.one(kdrv.decrypt(uid, P(BM.CBC, PM.ANSI_X923), bytes(bad), iv), 'decrypt: bad ansi x9.23 padding')
+    w.one(kdrv.decrypt(uid, P(BM.CBC), b'', iv), 'decrypt: empty ciphertext')
+    g = w.one(kdrv.encrypt(uid, P(BM.GCM, None, tag_length=16), pt, iv[:12], aad), 'gcm ok')
+    if g is not None and kdrv.ok(g):
+        gct, tag = bytes.fromhex(g['payload']['data']), bytes.fromhex(g['payload']['auth_tag'])
+        GP = P(BM.GCM, None)
+        w.one(kdrv.decrypt(uid, GP, gct, iv[:12], aad, bytes(x ^ 0x80 for x in tag)), 'decrypt: gcm tampered tag')
+        w.one(kdrv.decrypt(uid, GP, gct[:-1] + bytes([gct[-1] ^ 1]), iv[:12], aad, tag), 'decrypt: gcm tampered ciphertext')
+        w.one(kdrv.decrypt(uid, GP, gct, iv[:12], aad[:-1], tag), 'decrypt: gcm other aad')
+        w.one(kdrv.decrypt(uid, GP, gct, iv[:12], aad, tag[:2]), 'decrypt: gcm tag of 2 bytes')
+        w.one(kdrv.decrypt(uid, GP, gct, iv[:5], aad, tag), 'decrypt: gcm nonce of 5 bytes')
+        w.one(kdrv.decrypt(uid, GP, gct, iv[:12], aad, tag + tag), 'decrypt: gcm tag of 32 bytes')
+    # key derivation functions refuse their parameters
+    base = reg_sym(w, n=32, kind='derive-base')
+    salt = w.can.new('salt', 16)
+    dd = w.can.new('derivation-data', 32)
+    sha = cparams(hashing_algorithm=HA.SHA_256)
+    big = kdrv.sym_attrs(ALG.AES, 8 * 9000, kdrv.ENC_DEC)
+    for it in (0, -1, -2147483648):
+        w.one(kdrv.derive_key([base], DM.PBKDF2, dparams(cryptographic_parameters=sha, salt=salt, iteration_count=it)), 'pbkdf2 iterations %d' % it)
+    w.one(kdrv.derive_key([base], DM.PBKDF2, dparams(cryptographic_parameters=sha, salt=b'', iteration_count=10)), 'pbkdf2 empty salt')
+    w.one(kdrv.derive_key([base], DM.HMAC, dparams(cryptographic_parameters=sha, derivation_data=dd, salt=salt), attrs=big), 'hkdf 9000 bytes')
+    w.one(kdrv.derive_key([base], DM.PBKDF2, dparams(cryptographic_parameters=sha, salt=salt, iteration_count=2), attrs=big), 'pbkdf2 9000 bytes')
+    w.one(kdrv.derive_key([base], DM.NIST800_108_C, dparams(cryptographic_parameters=sha, derivation_data=dd), attrs=big), 'kbkdf 9000 bytes')
+    w.one(kdrv.derive_key([base], DM.NIST800_108_C, dparams(cryptographic_parameters=sha)), 'kbkdf without fixed data')
+    w.one(kdrv.derive_key([base], DM.ENCRYPT, dparams(cryptographic_parameters=cparams(**CBC), initialization_vector=iv[:5], derivation_data=dd),
+                          attrs=kdrv.sym_attrs(ALG.AES, 256, kdrv.ENC_DEC)), 'encrypt method with 5 byte iv')
+    w.one(kdrv.derive_key([base], DM.ENCRYPT, dparams(cryptographic_parameters=cparams(**CBC), initialization_vector=iv)), 'encrypt method without data')
+
+
+@atom()
 def asymmetric_crypto(w):
     priv, pub = reg_rsa(w)
     PM = E.PaddingMethod
@@ -743,6 +808,7 @@ ENGINE_ALL = ['setup_keys', 'lifecycle_all_types', 'create_paths', 'create_key_p
 CURATED = [
     ('engine-lifecycle', 'engine', ['setup_keys', 'lifecycle_all_types', 'create_paths', 'create_key_pair_paths', 'not_found_and_denied', 'locate_query']),
     ('engine-crypto', 'engine', ['setup_keys', 'encrypt_decrypt', 'mac_paths', 'derive_paths']),
+    ('engine-backend-refusals', 'engine', ['setup_keys', 'cipher_backend_refusals']),
     ('engine-asymmetric', 'engine', ['setup_keys', 'asymmetric_crypto']),
     ('engine-wrap-register', 'engine', ['setup_keys', 'lifecycle_all_types', 'get_and_wrap', 'register_failures']),
     ('session-auth', 'session', ['setup_keys', 'sess_auth_password', 'sess_slugs']),
